@@ -471,6 +471,8 @@ fn run_scenario(sci: usize, sc: &Scenario, profiles: &[u32], cfg_list: &[(usize,
             let mut cfg = cfg.clone();
             if sc.xf == "HO" {
                 cfg.acronyms = Some("HO".into());
+                // HoldOff only exists for mania: a taiko DifficultyAdjust would put the lazer set in taiko mode and drop it
+                cfg.da_scroll = None;
             }
             let mut ctx = Ctx {
                 sc,
@@ -797,7 +799,18 @@ fn mania_mods(rng: &mut StdRng, mode: &str, cfg: &Cfg) -> Cfg {
     if mode != "mania" {
         return cfg.clone();
     }
-    match rng.gen_range(0..6) {
+    match rng.gen_range(0..8) {
+        6 => {
+            // Invert together with a seeded Random: the order in which the two rewrite the map matters
+            let mut c = cfg.with_acronyms("IN");
+            c.random_seed = Some(rng.gen_range(1..1000));
+            c
+        }
+        7 => {
+            let mut c = cfg.with_acronyms("HO");
+            c.random_seed = Some(rng.gen_range(1..1000));
+            c
+        }
         0 => cfg.with_acronyms("IN"),
         1 => cfg.with_acronyms("HO"),
         2 => cfg.with_acronyms("MR"),
@@ -842,8 +855,11 @@ pub fn record_main(args: &[String]) -> i32 {
             record_sessions(&mut rec, &mut rng, t, &conv, cfg, &format!("fixture {id} [{start}..{end}] as {t} cfg {ci} {:?}", cfg.acronyms));
             if t == "mania" {
                 // the mods that rewrite the mania object list are always covered
-                for a in ["IN", "HO", "IN,HO", "MR"] {
-                    let cfg = all_cfgs[0].with_acronyms(a);
+                for a in ["IN", "HO", "IN,HO", "MR", "IN+RD", "RD"] {
+                    let mut cfg = all_cfgs[0].with_acronyms(a.split('+').next().filter(|x| *x != "RD").unwrap_or(""));
+                    if a.contains("RD") {
+                        cfg.random_seed = Some(42);
+                    }
                     if let Ok(conv) = map.clone().convert(mode_of(t), &cfg.game_mods()) {
                         maps_used += 1;
                         record_sessions(&mut rec, &mut rng, t, &conv, &cfg, &format!("fixture {id} [{start}..{end}] as mania with {a}"));
